@@ -87,7 +87,11 @@ static int op_bin2b64(int argc, char **argv, FILE *o) {
     return enc_common(&a, o, variant_valid(a.variant) && a.maxlen >= sodium_base64_ENCODED_LEN(a.bin.n, a.variant));
 }
 typedef struct { size_t n; int v; } lena;
-static void len_run(void *a_, FILE *o) { lena *a = (lena *) a_; fprintf(o, "%llu", (unsigned long long) sodium_base64_encoded_len(a->n, a->v)); }
+static void len_run(void *a_, FILE *o) {
+    lena *a = (lena *) a_; size_t f = sodium_base64_encoded_len(a->n, a->v);
+    fprintf(o, "%llu", (unsigned long long) f);
+    if (variant_valid(a->v)) { size_t m = sodium_base64_ENCODED_LEN(a->n, a->v); if (m != f) fprintf(o, " MACRO=%llu", (unsigned long long) m); }   /* the macro and the function must agree */
+}
 static int op_b64len(int argc, char **argv, FILE *o) {
     uint64_t n, v; lena a;
     if (argc != 2 || hx_u64(argv[0], &n) || hx_u64(argv[1], &v)) return -1;
